@@ -1,0 +1,85 @@
+//! Verification-only I/O recorder for the file-backed linear storage.
+//!
+//! Compiled only with `--cfg aranya_verif` (and the `std` feature). When a
+//! recorder is installed every file create/open, `pwrite`, `fdatasync`,
+//! `fallocate` and `fsync` issued by [`Writer`](super::Writer) is appended to
+//! a process-global log, so crash images can be materialized offline.
+
+use std::{sync::Mutex, vec::Vec};
+
+/// One I/O call on a graph file, in issue order.
+#[derive(Clone, Debug, PartialEq, Eq)]
+pub enum IoEvent {
+    /// The file was created (`Writer::create`).
+    Create {
+        /// Identity of the open file.
+        file: usize,
+    },
+    /// An existing file was opened (`Writer::open`).
+    Open {
+        /// Identity of the open file.
+        file: usize,
+    },
+    /// `write_all(offset, bytes)`.
+    Write {
+        /// Identity of the open file.
+        file: usize,
+        /// File offset of the first byte.
+        offset: i64,
+        /// The bytes written.
+        bytes: Vec<u8>,
+    },
+    /// `fdatasync`.
+    Sync {
+        /// Identity of the open file.
+        file: usize,
+    },
+    /// `fallocate(offset, len)` (before its `fsync`).
+    Fallocate {
+        /// Identity of the open file.
+        file: usize,
+        /// Start of the allocated range.
+        offset: i64,
+        /// Length of the allocated range.
+        len: i64,
+    },
+    /// `fsync`.
+    Fsync {
+        /// Identity of the open file.
+        file: usize,
+    },
+}
+
+static LOG: Mutex<Option<Vec<IoEvent>>> = Mutex::new(None);
+
+fn with<R>(f: impl FnOnce(&mut Option<Vec<IoEvent>>) -> R) -> R {
+    let mut guard = match LOG.lock() {
+        Ok(g) => g,
+        Err(p) => p.into_inner(),
+    };
+    f(&mut guard)
+}
+
+/// Installs an empty recorder (replacing any previous one).
+pub fn install() {
+    with(|l| *l = Some(Vec::new()));
+}
+
+/// Removes the recorder and returns everything it recorded.
+pub fn uninstall() -> Vec<IoEvent> {
+    with(|l| l.take().unwrap_or_default())
+}
+
+/// Number of events recorded so far (0 when no recorder is installed).
+pub fn len() -> usize {
+    with(|l| l.as_ref().map_or(0, Vec::len))
+}
+
+/// Appends `ev()` to the log if a recorder is installed.
+pub(super) fn record(ev: impl FnOnce() -> IoEvent) {
+    with(|l| {
+        if let Some(log) = l.as_mut() {
+            log.push(ev());
+        }
+    });
+}
